@@ -5,7 +5,7 @@ import re
 from vf import core
 from vf.core import Suite, coq_hex, coq_N
 from vf.gen import rbytes, pick_weighted, GRID
-from props import C34, C35, C10
+from props import C34, C35, C10, C06, C04
 from props import C53gen as G
 
 ID = "C53"
@@ -387,7 +387,11 @@ class IdxModel(C10.File):
             ents = [(t[0], t[1] if t[1] is not None else 0, t[2]) for t in lay["tab"]] if lay else []
             qs = [{"q": "offset", "h": e[0].hex()} for e in ents] + [{"q": "crc", "h": e[0].hex()} for e in ents[:2]]
             qs += [{"q": "findhash", "o": str(e[1])} for e in ents[:3]]
-            qs += [{"q": "entries"}, {"q": "byoffset"}, {"q": "count"}, {"q": "prefix", "p": ents[0][0][:1].hex() if ents else ""}]
+            qs += [{"q": "entries"}, {"q": "count"}, {"q": "prefix", "p": ents[0][0][:1].hex() if ents else ""}]
+            if len({e[1] for e in ents}) == len(ents):
+                # with two entries on one offset (a slot referenced twice) the order inside the run is the rev file's for LazyIndex
+                # and sort.Sort's for MemoryIndex; harness/cmd/c10 canonicalises it, Model/Idx.v does not: not compared
+                qs.append({"q": "byoffset"})
             pack = idx[-2 * hs:-hs]
             cases.append({"bucket": b, "kind": "file", "hs": hs, "idx": idx.hex(), "rev": rev.hex(), "pack": pack.hex(), "queries": qs})
         return cases
@@ -399,4 +403,51 @@ class IdxModel(C10.File):
         return None
 
 
-SUITES = [Fuzz(), Boundary(), IdxModel(), Varint(), Framing(), Messages()]
+def _panic_only(cases, impl):
+    return {c["id"]: "no reply / panic" for c in cases if impl.get(c["id"]) is None or impl[c["id"]].get("panic")}
+
+
+class DeltaModel(C06.Apply):
+    """the delta boundary family through harness/cmd/c06 (all five appliers) and Model/Delta.v: impl = model ties the
+    C53_delta_* theorems to the code on the copy/insert ranges that end at, one before and one past their buffers"""
+    name = "deltamodel"
+    quick_n = 0
+    thorough_n = 0
+
+    def gen(self, rng, n, tier):
+        cases = []
+        for b, src, d in G.delta_cases(rng, "quick"):
+            if len(src) <= 300:
+                cases.append({"bucket": b, "kind": "apply", "src": C06.D.seg(src), "delta": C06.D.seg(d), "chunk": 0})
+        return cases
+
+    def oracle(self, ctx, cases, impl, model):
+        return _panic_only(cases, impl)
+
+    def finding_class(self, case, reason, reply):
+        return None
+
+    def extra(self, ctx, cases, impl, model):
+        return {}
+
+
+class TreeModel(C04.Main):
+    """the tree boundary family through harness/cmd/c04 and Model/TreeObj.v (Tree.Decode)"""
+    name = "treemodel"
+    quick_n = 0
+    thorough_n = 0
+
+    def gen(self, rng, n, tier):
+        return [{"bucket": b, "op": "dec", "raw": data.hex()} for b, data in G.tree_cases(rng, tier)]
+
+    def oracle(self, ctx, cases, impl, model):
+        return _panic_only(cases, impl)
+
+    def finding_class(self, case, reason, reply):
+        return None
+
+    def extra(self, ctx, cases, impl, model):
+        return {}
+
+
+SUITES = [Fuzz(), Boundary(), IdxModel(), DeltaModel(), TreeModel(), Varint(), Framing(), Messages()]
